@@ -24,7 +24,7 @@ fn check_accepted(n: u32, k: u32, r: Option<(u32, u8, usize, usize)>) {
     }
 }
 
-//@ {"p":"C19","tier":"quick","clause":"every (n,k) accepted by Params::new satisfies the downstream preconditions: n%8==0, 3<=k<n, (k+1)|n, collision bit length c=n/(k+1) in 8..=24 (expand_array is called with bit_len c and c+1 and asserts 8<=bit_len<=25), n<=512 (indices_per_hash_output>=1, used as divisor), hash_output=ipho*n/8<=64, k<64","bounds":"all (n,k) in u32 x u32: k in 3..=63 by 61 concrete-divisor instances with symbolic n, everything else symbolic","covers":2,"t":900}
+//@ {"p":"C19","tier":"quick","clause":"every (n,k) accepted by Params::new satisfies the downstream preconditions: n%8==0, 3<=k<n, (k+1)|n, collision bit length c=n/(k+1) in 8..=24 (expand_array is called with bit_len c and c+1 and asserts 8<=bit_len<=25), n<=512 (indices_per_hash_output>=1, used as divisor), hash_output=ipho*n/8<=64, k<64","bounds":"all (n,k) in u32 x u32: k in 3..=63 by 61 concrete-divisor instances with symbolic n, everything else symbolic","covers":2,"t":1800}
 #[kani::proof]
 #[kani::unwind(66)]
 fn c19_params_imply_preconditions() {
@@ -97,18 +97,18 @@ macro_rules! decode_k3 {
     };
 }
 
-//@ {"p":"C19","tier":"quick","clause":"(32,3): a 9-byte minimal encoding decodes to 8 indices that equal the big-endian 9-bit slices of the input (symbolic position j)","bounds":"all 9-byte strings","covers":2,"t":600}
+//@ {"p":"C19","tier":"quick","clause":"(32,3): a 9-byte minimal encoding decodes to 8 indices that equal the big-endian 9-bit slices of the input (symbolic position j)","bounds":"all 9-byte strings","covers":2,"t":1200}
 decode_k3!(c19_decode_32_3, 32);
-//@ {"p":"C19","tier":"quick","clause":"(96,3): a 25-byte encoding decodes to the 8 big-endian 25-bit slices (widest supported index)","bounds":"all 25-byte strings","covers":2,"t":900}
+//@ {"p":"C19","tier":"quick","clause":"(96,3): a 25-byte encoding decodes to the 8 big-endian 25-bit slices (widest supported index)","bounds":"all 25-byte strings","covers":2,"t":1800}
 decode_k3!(c19_decode_96_3, 96);
-//@ {"p":"C19","tier":"thorough","clause":"(48,3): 13-bit indices","bounds":"all 13-byte strings","covers":2,"t":900}
+//@ {"p":"C19","tier":"thorough","clause":"(48,3): 13-bit indices","bounds":"all 13-byte strings","covers":2,"t":1800}
 decode_k3!(c19_decode_48_3, 48);
-//@ {"p":"C19","tier":"thorough","clause":"(64,3): 17-bit indices","bounds":"all 17-byte strings","covers":2,"t":900}
+//@ {"p":"C19","tier":"thorough","clause":"(64,3): 17-bit indices","bounds":"all 17-byte strings","covers":2,"t":1800}
 decode_k3!(c19_decode_64_3, 64);
-//@ {"p":"C19","tier":"thorough","clause":"(80,3): 21-bit indices (the width used by (200,9))","bounds":"all 21-byte strings","covers":2,"t":900}
+//@ {"p":"C19","tier":"thorough","clause":"(80,3): 21-bit indices (the width used by (200,9))","bounds":"all 21-byte strings","covers":2,"t":1800}
 decode_k3!(c19_decode_80_3, 80);
 
-//@ {"p":"C19","tier":"quick","clause":"a solution whose length differs from 2^k*(c+1)/8 is rejected (InvalidParams), never decoded and never a panic: (200,9) expects 1344, (48,5) 36, (96,5) 68, (32,3) 9","bounds":"all lengths 0..=2000 over a zero buffer (contents are not read before the length check), 4 parameter sets","covers":1,"t":600}
+//@ {"p":"C19","tier":"quick","clause":"a solution whose length differs from 2^k*(c+1)/8 is rejected (InvalidParams), never decoded and never a panic: (200,9) expects 1344, (48,5) 36, (96,5) 68, (32,3) 9","bounds":"all lengths 0..=2000 over a zero buffer (contents are not read before the length check), 4 parameter sets","covers":1,"t":1200}
 #[kani::proof]
 #[kani::unwind(2)]
 fn c19_wrong_length_rejected() {
@@ -158,7 +158,7 @@ fn grid_call(n: u32, k: u32, leaf: bool) {
     core::mem::forget(r);
 }
 
-//@ {"p":"C19","tier":"quick","clause":"extreme accepted/rejected corner parameters never panic: (512,63) whose expected length overflows usize, (512,31), (256,31), (504,62), (8,3), (56,7), (200,3), (520,4), k=u32::MAX","bounds":"9 concrete parameter sets x {expected length if <=34, 1 byte}","covers":0,"t":600}
+//@ {"p":"C19","tier":"quick","clause":"extreme accepted/rejected corner parameters never panic: (512,63) whose expected length overflows usize, (512,31), (256,31), (504,62), (8,3), (56,7), (200,3), (520,4), k=u32::MAX","bounds":"9 concrete parameter sets x {expected length if <=34, 1 byte}","covers":0,"t":1200}
 #[kani::proof]
 #[kani::stub(core::arch::x86_64::__cpuid_count, cpuid_none)]
 #[kani::stub(equihash::verify::generate_hash, generate_hash_stub)]
@@ -272,15 +272,15 @@ macro_rules! subtree_step {
     };
 }
 
-//@ {"p":"C19","tier":"quick","clause":"one validator step, leaves of (200,9): validate_subtrees == definition (Collision / OutOfOrder / DuplicateIdxs precedence; Ok iff first 3-byte segment equal, a[0]<b[0], index sets disjoint), from_children = xor of the tails + indices of the lower-first child first, is_zero = prefix all zero","bounds":"children with 1 index each, 6 remaining hash bytes, all hashes and indices symbolic","covers":5,"t":600}
+//@ {"p":"C19","tier":"quick","clause":"one validator step, leaves of (200,9): validate_subtrees == definition (Collision / OutOfOrder / DuplicateIdxs precedence; Ok iff first 3-byte segment equal, a[0]<b[0], index sets disjoint), from_children = xor of the tails + indices of the lower-first child first, is_zero = prefix all zero","bounds":"children with 1 index each, 6 remaining hash bytes, all hashes and indices symbolic","covers":5,"t":1200}
 subtree_step!(c19_step_200_9_m1, 200, 9, 3, 6, 1);
-//@ {"p":"C19","tier":"quick","clause":"same step, children with 2 indices each","bounds":"2+2 indices, 6 hash bytes","covers":5,"t":600}
+//@ {"p":"C19","tier":"quick","clause":"same step, children with 2 indices each","bounds":"2+2 indices, 6 hash bytes","covers":5,"t":1200}
 subtree_step!(c19_step_200_9_m2, 200, 9, 3, 6, 2);
-//@ {"p":"C19","tier":"quick","clause":"same step, children with 4 indices each (8-leaf subtree)","bounds":"4+4 indices, 6 hash bytes","covers":5,"t":900}
+//@ {"p":"C19","tier":"quick","clause":"same step, children with 4 indices each (8-leaf subtree)","bounds":"4+4 indices, 6 hash bytes","covers":5,"t":1800}
 subtree_step!(c19_step_200_9_m4, 200, 9, 3, 6, 4);
-//@ {"p":"C19","tier":"thorough","clause":"same step for (48,5): 1-byte segments","bounds":"2+2 indices, 3 hash bytes","covers":5,"t":600}
+//@ {"p":"C19","tier":"thorough","clause":"same step for (48,5): 1-byte segments","bounds":"2+2 indices, 3 hash bytes","covers":5,"t":1200}
 subtree_step!(c19_step_48_5_m2, 48, 5, 1, 3, 2);
-//@ {"p":"C19","tier":"thorough","clause":"same step for (96,5): 2-byte segments","bounds":"4+4 indices, 4 hash bytes","covers":5,"t":900}
+//@ {"p":"C19","tier":"thorough","clause":"same step for (96,5): 2-byte segments","bounds":"4+4 indices, 4 hash bytes","covers":5,"t":1800}
 subtree_step!(c19_step_96_5_m4, 96, 5, 2, 4, 4);
 
 // ---------------------------------------------------------------------------------------------
@@ -378,11 +378,11 @@ macro_rules! leaf {
     };
 }
 
-//@ {"p":"C19","tier":"quick","clause":"leaf of (200,9) for every index i: hash input block is i/2, the leaf takes bytes [(i%2)*25, +25) of the 50-byte output and expands them to 10 big-endian 20-bit segments in 3 bytes each; indices == [i]","bounds":"all u32 indices, all 64-byte hash outputs (generate_hash stubbed: arbitrary hash function)","assume":"stub: equihash::verify::generate_hash returns an arbitrary row and records its argument; native replay uses real BLAKE2b","covers":1,"t":900,"stub":true,"replay":"model"}
+//@ {"p":"C19","tier":"quick","clause":"leaf of (200,9) for every index i: hash input block is i/2, the leaf takes bytes [(i%2)*25, +25) of the 50-byte output and expands them to 10 big-endian 20-bit segments in 3 bytes each; indices == [i]","bounds":"all u32 indices, all 64-byte hash outputs (generate_hash stubbed: arbitrary hash function)","assume":"stub: equihash::verify::generate_hash returns an arbitrary row and records its argument; native replay uses real BLAKE2b","covers":1,"t":1800,"stub":true,"replay":"model"}
 leaf!(c19_leaf_200_9, 200, 9);
-//@ {"p":"C19","tier":"thorough","clause":"leaf of (48,5): 10 indices per 60-byte output, 8-bit segments (expand_array no-op path)","bounds":"all u32 indices, all hash outputs","assume":"stub: generate_hash arbitrary","covers":1,"t":900,"stub":true,"replay":"model"}
+//@ {"p":"C19","tier":"thorough","clause":"leaf of (48,5): 10 indices per 60-byte output, 8-bit segments (expand_array no-op path)","bounds":"all u32 indices, all hash outputs","assume":"stub: generate_hash arbitrary","covers":1,"t":1800,"stub":true,"replay":"model"}
 leaf!(c19_leaf_48_5, 48, 5);
-//@ {"p":"C19","tier":"thorough","clause":"leaf of (96,5): 16-bit segments","bounds":"all u32 indices, all hash outputs","assume":"stub: generate_hash arbitrary","covers":1,"t":900,"stub":true,"replay":"model"}
+//@ {"p":"C19","tier":"thorough","clause":"leaf of (96,5): 16-bit segments","bounds":"all u32 indices, all hash outputs","assume":"stub: generate_hash arbitrary","covers":1,"t":1800,"stub":true,"replay":"model"}
 leaf!(c19_leaf_96_5, 96, 5);
 
 // ---------------------------------------------------------------------------------------------
@@ -501,9 +501,9 @@ macro_rules! near_length {
         }
     };
 }
-//@ {"p":"C19","tier":"quick","clause":"(32,3) expects 9 bytes: every 10-byte string is rejected with InvalidParams (never decoded, whatever the surplus byte holds)","bounds":"all 10-byte strings","covers":0,"t":600}
+//@ {"p":"C19","tier":"quick","clause":"(32,3) expects 9 bytes: every 10-byte string is rejected with InvalidParams (never decoded, whatever the surplus byte holds)","bounds":"all 10-byte strings","covers":0,"t":1200}
 near_length!(c19_near_length_32_3_plus1, 32, 3, 10);
-//@ {"p":"C19","tier":"quick","clause":"(32,3): every 8-byte string is rejected","bounds":"all 8-byte strings","covers":0,"t":600}
+//@ {"p":"C19","tier":"quick","clause":"(32,3): every 8-byte string is rejected","bounds":"all 8-byte strings","covers":0,"t":1200}
 near_length!(c19_near_length_32_3_minus1, 32, 3, 8);
-//@ {"p":"C19","tier":"thorough","clause":"(96,3) expects 25 bytes: every 26-byte string is rejected","bounds":"all 26-byte strings","covers":0,"t":900}
+//@ {"p":"C19","tier":"thorough","clause":"(96,3) expects 25 bytes: every 26-byte string is rejected","bounds":"all 26-byte strings","covers":0,"t":1800}
 near_length!(c19_near_length_96_3_plus1, 96, 3, 26);
